@@ -36,17 +36,17 @@ func crashStates(log []crashdb.Unit) ([]crashState, string) {
 		if len(ps) != 1 {
 			return nil, fmt.Sprintf("unit %d touches %d key spaces %v: commutation argument does not apply", i, len(ps), ps)
 		}
-		if ps[0] == "" && i != len(log)-1 {
-			return nil, fmt.Sprintf("commit-info unit at position %d of %d (not last)", i, len(log))
+		if ps[0] != "" && len(groups[""]) > 0 {
+			return nil, fmt.Sprintf("substore unit at position %d after a multistore-level unit", i)
 		}
 		if _, ok := groups[ps[0]]; !ok {
 			order = append(order, ps[0])
 		}
 		groups[ps[0]] = append(groups[ps[0]], u)
 	}
-	final, ok := groups[""]
-	if !ok || len(final) != 1 {
-		return nil, "no single commit-info unit"
+	final := groups[""]
+	if len(final) == 0 {
+		return nil, "no multistore-level (commit-info) unit"
 	}
 	var subs []string
 	for _, p := range order {
@@ -79,7 +79,11 @@ func crashStates(log []crashdb.Unit) ([]crashState, string) {
 			}
 		}
 	}
-	// everything including the commit-info batch
+	// the multistore-level units (normally one batch: commit-info + latest) one after the other
+	for cut := 1; cut < len(final); cut++ {
+		states = append(states, crashState{fmt.Sprintf("all-substores+multistore:%d/%d", cut, len(final)), append([]crashdb.Unit{}, log[:len(log)-len(final)+cut]...)})
+	}
+	// everything including the last multistore-level unit
 	all := append([]crashdb.Unit{}, log...)
 	states = append(states, crashState{"complete", all})
 	return states, ""
